@@ -34,13 +34,13 @@ example : firstOffender [(1, false), (7, false)] = 0 := by decide
 theorem tables_sorted (dt : Int) :
     (∀ a, (gssv.table dt a).map (·.1) = [1, 2, 3, 4, 5, 6, 7]) ∧
     (∀ a, (gssvx.table dt a).map (·.1) = [1, 2, 3, 4, 5, 6, 7, 8, 9, 10, 11, 12, 13, 14, 15, 16, 17]) ∧
-    (∀ a, (gstrs.table dt a).map (·.1) = [1, 2, 3, 4, 5, 6, 7]) ∧
+    (∀ dc a, (gstrs.table dc dt a).map (·.1) = [1, 2, 3, 4, 5, 6, 7]) ∧
     (∀ a, (gsrfs.table dt a).map (·.1) = [1, 2, 3, 4, 5, 6, 7, 8, 9, 10, 11, 12, 13, 14]) ∧
     (∀ a, (gscon.table dt a).map (·.1) = [1, 2, 3, 4, 5]) ∧
     (∀ a, (gsequ.table dt a).map (·.1) = [1, 2, 3, 4, 5, 6]) ∧
     (∀ a, (trsv.table dt a).map (·.1) = [1, 2, 3, 4, 5, 6]) ∧
     (∀ a, (gemv.table dt a).map (·.1) = [1, 2, 3, 4, 5, 6, 7, 8]) :=
-  ⟨fun _ => rfl, fun _ => rfl, fun _ => rfl, fun _ => rfl, fun _ => rfl, fun _ => rfl, fun _ => rfl, fun _ => rfl⟩
+  ⟨fun _ => rfl, fun _ => rfl, fun _ _ => rfl, fun _ => rfl, fun _ => rfl, fun _ => rfl, fun _ => rfl, fun _ => rfl⟩
 
 /-! ### p?gssv — deviation: the documented types of B (position 7) are never tested -/
 
@@ -224,75 +224,80 @@ theorem pzgssvx_accepts_valid (a : GssvxArgs) (hb : 0 < a.bignum) (h : gssvx.val
 example : gssvx.valid SLU_Z (Witness.gssvxOk SLU_Z) = true ∧ pzgssvxCheck (Witness.gssvxOk SLU_Z) = 0 := by decide
 
 /-! ### ?gstrs — deviations: a malformed L (argument 2) is reported as 3 and a malformed U (argument 3) as 4;
-    the documented types of L, U, B are never tested; c/z accept CONJ, which their header does not list -/
+    the documented types of L, U, B are never tested; c/z accept CONJ, which their header does not list
+    (s/d: documented and accepted since /repo 2acf694) -/
 
-theorem dgstrs_code_table (a : GstrsArgs) : dgstrsCheck a = firstOffender (Coded.gstrs false a) := by
+theorem dgstrs_code_table (a : GstrsArgs) : dgstrsCheck a = firstOffender (Coded.gstrs a) := by
   simp only [dgstrsCheck, dgstrsChain, Coded.gstrs, gstrs.shape_2, gstrs.shape_3, gstrs.shape_6]
   table_norm; enum_unfold; chain_steps
-theorem dgstrs_first_offender_partial (a : GstrsArgs) (hx : Coded.gstrsExcl false SLU_D a) :
-    dgstrsCheck a = gstrs.docInfo SLU_D a := by
-  rw [dgstrs_code_table, Coded.gstrs_eq_doc false SLU_D a hx]
-example : Coded.gstrsExcl false SLU_D (Witness.gstrsBadLda SLU_D) ∧ dgstrsCheck (Witness.gstrsBadLda SLU_D) = -6 := by decide
-theorem dgstrs_L_reported_as_3 : gstrs.docInfo SLU_D (Witness.gstrsBadL SLU_D) = -2 ∧ dgstrsCheck (Witness.gstrsBadL SLU_D) = -3 := by decide
-theorem dgstrs_U_reported_as_4 : gstrs.docInfo SLU_D (Witness.gstrsBadU SLU_D) = -3 ∧ dgstrsCheck (Witness.gstrsBadU SLU_D) = -4 := by decide
-theorem dgstrs_types_unchecked : gstrs.docInfo SLU_D (Witness.gstrsBadLtype SLU_D) = -2 ∧ dgstrsCheck (Witness.gstrsBadLtype SLU_D) = 0 := by decide
-theorem dgstrs_accepts_valid (a : GstrsArgs) (h : gstrs.valid SLU_D a = true) : dgstrsCheck a = 0 := by
-  rw [dgstrs_first_offender_partial a (Coded.gstrs_valid_excl false SLU_D a h)]
+theorem dgstrs_first_offender_partial (a : GstrsArgs) (hx : Coded.gstrsExcl true SLU_D a) :
+    dgstrsCheck a = gstrs.docInfo true SLU_D a := by
+  rw [dgstrs_code_table, Coded.gstrs_eq_doc true SLU_D a hx]
+example : Coded.gstrsExcl true SLU_D (Witness.gstrsBadLda SLU_D) ∧ dgstrsCheck (Witness.gstrsBadLda SLU_D) = -6 := by decide
+theorem dgstrs_L_reported_as_3 : gstrs.docInfo true SLU_D (Witness.gstrsBadL SLU_D) = -2 ∧ dgstrsCheck (Witness.gstrsBadL SLU_D) = -3 := by decide
+theorem dgstrs_U_reported_as_4 : gstrs.docInfo true SLU_D (Witness.gstrsBadU SLU_D) = -3 ∧ dgstrsCheck (Witness.gstrsBadU SLU_D) = -4 := by decide
+theorem dgstrs_types_unchecked : gstrs.docInfo true SLU_D (Witness.gstrsBadLtype SLU_D) = -2 ∧ dgstrsCheck (Witness.gstrsBadLtype SLU_D) = 0 := by decide
+theorem dgstrs_accepts_valid (a : GstrsArgs) (h : gstrs.valid true SLU_D a = true) : dgstrsCheck a = 0 := by
+  rw [dgstrs_first_offender_partial a (Coded.gstrs_valid_excl true SLU_D a h)]
   exact firstOffender_of_allValid _ h
-example : gstrs.valid SLU_D (Witness.gstrsOk SLU_D) = true ∧ dgstrsCheck (Witness.gstrsOk SLU_D) = 0 := by decide
+example : gstrs.valid true SLU_D (Witness.gstrsOk SLU_D) = true ∧ dgstrsCheck (Witness.gstrsOk SLU_D) = 0 := by decide
 
-example : gstrs.docInfo SLU_D (Witness.gstrsConj SLU_D) = -1 ∧ dgstrsCheck (Witness.gstrsConj SLU_D) = -1 := by decide
+/-- real precision: CONJ is documented and accepted (no exclusion on `trans` is needed any more) -/
+theorem dgstrs_conj_documented_and_accepted :
+    gstrs.valid true SLU_D (Witness.gstrsConj SLU_D) = true ∧ dgstrsCheck (Witness.gstrsConj SLU_D) = 0 := by decide
 
-theorem sgstrs_code_table (a : GstrsArgs) : sgstrsCheck a = firstOffender (Coded.gstrs false a) := by
+theorem sgstrs_code_table (a : GstrsArgs) : sgstrsCheck a = firstOffender (Coded.gstrs a) := by
   simp only [sgstrsCheck, sgstrsChain, Coded.gstrs, gstrs.shape_2, gstrs.shape_3, gstrs.shape_6]
   table_norm; enum_unfold; chain_steps
-theorem sgstrs_first_offender_partial (a : GstrsArgs) (hx : Coded.gstrsExcl false SLU_S a) :
-    sgstrsCheck a = gstrs.docInfo SLU_S a := by
-  rw [sgstrs_code_table, Coded.gstrs_eq_doc false SLU_S a hx]
-example : Coded.gstrsExcl false SLU_S (Witness.gstrsBadLda SLU_S) ∧ sgstrsCheck (Witness.gstrsBadLda SLU_S) = -6 := by decide
-theorem sgstrs_L_reported_as_3 : gstrs.docInfo SLU_S (Witness.gstrsBadL SLU_S) = -2 ∧ sgstrsCheck (Witness.gstrsBadL SLU_S) = -3 := by decide
-theorem sgstrs_U_reported_as_4 : gstrs.docInfo SLU_S (Witness.gstrsBadU SLU_S) = -3 ∧ sgstrsCheck (Witness.gstrsBadU SLU_S) = -4 := by decide
-theorem sgstrs_types_unchecked : gstrs.docInfo SLU_S (Witness.gstrsBadLtype SLU_S) = -2 ∧ sgstrsCheck (Witness.gstrsBadLtype SLU_S) = 0 := by decide
-theorem sgstrs_accepts_valid (a : GstrsArgs) (h : gstrs.valid SLU_S a = true) : sgstrsCheck a = 0 := by
-  rw [sgstrs_first_offender_partial a (Coded.gstrs_valid_excl false SLU_S a h)]
+theorem sgstrs_first_offender_partial (a : GstrsArgs) (hx : Coded.gstrsExcl true SLU_S a) :
+    sgstrsCheck a = gstrs.docInfo true SLU_S a := by
+  rw [sgstrs_code_table, Coded.gstrs_eq_doc true SLU_S a hx]
+example : Coded.gstrsExcl true SLU_S (Witness.gstrsBadLda SLU_S) ∧ sgstrsCheck (Witness.gstrsBadLda SLU_S) = -6 := by decide
+theorem sgstrs_L_reported_as_3 : gstrs.docInfo true SLU_S (Witness.gstrsBadL SLU_S) = -2 ∧ sgstrsCheck (Witness.gstrsBadL SLU_S) = -3 := by decide
+theorem sgstrs_U_reported_as_4 : gstrs.docInfo true SLU_S (Witness.gstrsBadU SLU_S) = -3 ∧ sgstrsCheck (Witness.gstrsBadU SLU_S) = -4 := by decide
+theorem sgstrs_types_unchecked : gstrs.docInfo true SLU_S (Witness.gstrsBadLtype SLU_S) = -2 ∧ sgstrsCheck (Witness.gstrsBadLtype SLU_S) = 0 := by decide
+theorem sgstrs_accepts_valid (a : GstrsArgs) (h : gstrs.valid true SLU_S a = true) : sgstrsCheck a = 0 := by
+  rw [sgstrs_first_offender_partial a (Coded.gstrs_valid_excl true SLU_S a h)]
   exact firstOffender_of_allValid _ h
-example : gstrs.valid SLU_S (Witness.gstrsOk SLU_S) = true ∧ sgstrsCheck (Witness.gstrsOk SLU_S) = 0 := by decide
+example : gstrs.valid true SLU_S (Witness.gstrsOk SLU_S) = true ∧ sgstrsCheck (Witness.gstrsOk SLU_S) = 0 := by decide
 
-example : gstrs.docInfo SLU_S (Witness.gstrsConj SLU_S) = -1 ∧ sgstrsCheck (Witness.gstrsConj SLU_S) = -1 := by decide
+/-- real precision: CONJ is documented and accepted (no exclusion on `trans` is needed any more) -/
+theorem sgstrs_conj_documented_and_accepted :
+    gstrs.valid true SLU_S (Witness.gstrsConj SLU_S) = true ∧ sgstrsCheck (Witness.gstrsConj SLU_S) = 0 := by decide
 
-theorem cgstrs_code_table (a : GstrsArgs) : cgstrsCheck a = firstOffender (Coded.gstrs true a) := by
+theorem cgstrs_code_table (a : GstrsArgs) : cgstrsCheck a = firstOffender (Coded.gstrs a) := by
   simp only [cgstrsCheck, cgstrsChain, Coded.gstrs, gstrs.shape_2, gstrs.shape_3, gstrs.shape_6]
   table_norm; enum_unfold; chain_steps
-theorem cgstrs_first_offender_partial (a : GstrsArgs) (hx : Coded.gstrsExcl true SLU_C a) :
-    cgstrsCheck a = gstrs.docInfo SLU_C a := by
-  rw [cgstrs_code_table, Coded.gstrs_eq_doc true SLU_C a hx]
-example : Coded.gstrsExcl true SLU_C (Witness.gstrsBadLda SLU_C) ∧ cgstrsCheck (Witness.gstrsBadLda SLU_C) = -6 := by decide
-theorem cgstrs_L_reported_as_3 : gstrs.docInfo SLU_C (Witness.gstrsBadL SLU_C) = -2 ∧ cgstrsCheck (Witness.gstrsBadL SLU_C) = -3 := by decide
-theorem cgstrs_U_reported_as_4 : gstrs.docInfo SLU_C (Witness.gstrsBadU SLU_C) = -3 ∧ cgstrsCheck (Witness.gstrsBadU SLU_C) = -4 := by decide
-theorem cgstrs_types_unchecked : gstrs.docInfo SLU_C (Witness.gstrsBadLtype SLU_C) = -2 ∧ cgstrsCheck (Witness.gstrsBadLtype SLU_C) = 0 := by decide
-theorem cgstrs_accepts_valid (a : GstrsArgs) (h : gstrs.valid SLU_C a = true) : cgstrsCheck a = 0 := by
-  rw [cgstrs_first_offender_partial a (Coded.gstrs_valid_excl true SLU_C a h)]
+theorem cgstrs_first_offender_partial (a : GstrsArgs) (hx : Coded.gstrsExcl false SLU_C a) :
+    cgstrsCheck a = gstrs.docInfo false SLU_C a := by
+  rw [cgstrs_code_table, Coded.gstrs_eq_doc false SLU_C a hx]
+example : Coded.gstrsExcl false SLU_C (Witness.gstrsBadLda SLU_C) ∧ cgstrsCheck (Witness.gstrsBadLda SLU_C) = -6 := by decide
+theorem cgstrs_L_reported_as_3 : gstrs.docInfo false SLU_C (Witness.gstrsBadL SLU_C) = -2 ∧ cgstrsCheck (Witness.gstrsBadL SLU_C) = -3 := by decide
+theorem cgstrs_U_reported_as_4 : gstrs.docInfo false SLU_C (Witness.gstrsBadU SLU_C) = -3 ∧ cgstrsCheck (Witness.gstrsBadU SLU_C) = -4 := by decide
+theorem cgstrs_types_unchecked : gstrs.docInfo false SLU_C (Witness.gstrsBadLtype SLU_C) = -2 ∧ cgstrsCheck (Witness.gstrsBadLtype SLU_C) = 0 := by decide
+theorem cgstrs_accepts_valid (a : GstrsArgs) (h : gstrs.valid false SLU_C a = true) : cgstrsCheck a = 0 := by
+  rw [cgstrs_first_offender_partial a (Coded.gstrs_valid_excl false SLU_C a h)]
   exact firstOffender_of_allValid _ h
-example : gstrs.valid SLU_C (Witness.gstrsOk SLU_C) = true ∧ cgstrsCheck (Witness.gstrsOk SLU_C) = 0 := by decide
+example : gstrs.valid false SLU_C (Witness.gstrsOk SLU_C) = true ∧ cgstrsCheck (Witness.gstrsOk SLU_C) = 0 := by decide
 
-theorem cgstrs_conj_accepted : gstrs.docInfo SLU_C (Witness.gstrsConj SLU_C) = -1 ∧ cgstrsCheck (Witness.gstrsConj SLU_C) = 0 := by decide
+theorem cgstrs_conj_accepted : gstrs.docInfo false SLU_C (Witness.gstrsConj SLU_C) = -1 ∧ cgstrsCheck (Witness.gstrsConj SLU_C) = 0 := by decide
 
-theorem zgstrs_code_table (a : GstrsArgs) : zgstrsCheck a = firstOffender (Coded.gstrs true a) := by
+theorem zgstrs_code_table (a : GstrsArgs) : zgstrsCheck a = firstOffender (Coded.gstrs a) := by
   simp only [zgstrsCheck, zgstrsChain, Coded.gstrs, gstrs.shape_2, gstrs.shape_3, gstrs.shape_6]
   table_norm; enum_unfold; chain_steps
-theorem zgstrs_first_offender_partial (a : GstrsArgs) (hx : Coded.gstrsExcl true SLU_Z a) :
-    zgstrsCheck a = gstrs.docInfo SLU_Z a := by
-  rw [zgstrs_code_table, Coded.gstrs_eq_doc true SLU_Z a hx]
-example : Coded.gstrsExcl true SLU_Z (Witness.gstrsBadLda SLU_Z) ∧ zgstrsCheck (Witness.gstrsBadLda SLU_Z) = -6 := by decide
-theorem zgstrs_L_reported_as_3 : gstrs.docInfo SLU_Z (Witness.gstrsBadL SLU_Z) = -2 ∧ zgstrsCheck (Witness.gstrsBadL SLU_Z) = -3 := by decide
-theorem zgstrs_U_reported_as_4 : gstrs.docInfo SLU_Z (Witness.gstrsBadU SLU_Z) = -3 ∧ zgstrsCheck (Witness.gstrsBadU SLU_Z) = -4 := by decide
-theorem zgstrs_types_unchecked : gstrs.docInfo SLU_Z (Witness.gstrsBadLtype SLU_Z) = -2 ∧ zgstrsCheck (Witness.gstrsBadLtype SLU_Z) = 0 := by decide
-theorem zgstrs_accepts_valid (a : GstrsArgs) (h : gstrs.valid SLU_Z a = true) : zgstrsCheck a = 0 := by
-  rw [zgstrs_first_offender_partial a (Coded.gstrs_valid_excl true SLU_Z a h)]
+theorem zgstrs_first_offender_partial (a : GstrsArgs) (hx : Coded.gstrsExcl false SLU_Z a) :
+    zgstrsCheck a = gstrs.docInfo false SLU_Z a := by
+  rw [zgstrs_code_table, Coded.gstrs_eq_doc false SLU_Z a hx]
+example : Coded.gstrsExcl false SLU_Z (Witness.gstrsBadLda SLU_Z) ∧ zgstrsCheck (Witness.gstrsBadLda SLU_Z) = -6 := by decide
+theorem zgstrs_L_reported_as_3 : gstrs.docInfo false SLU_Z (Witness.gstrsBadL SLU_Z) = -2 ∧ zgstrsCheck (Witness.gstrsBadL SLU_Z) = -3 := by decide
+theorem zgstrs_U_reported_as_4 : gstrs.docInfo false SLU_Z (Witness.gstrsBadU SLU_Z) = -3 ∧ zgstrsCheck (Witness.gstrsBadU SLU_Z) = -4 := by decide
+theorem zgstrs_types_unchecked : gstrs.docInfo false SLU_Z (Witness.gstrsBadLtype SLU_Z) = -2 ∧ zgstrsCheck (Witness.gstrsBadLtype SLU_Z) = 0 := by decide
+theorem zgstrs_accepts_valid (a : GstrsArgs) (h : gstrs.valid false SLU_Z a = true) : zgstrsCheck a = 0 := by
+  rw [zgstrs_first_offender_partial a (Coded.gstrs_valid_excl false SLU_Z a h)]
   exact firstOffender_of_allValid _ h
-example : gstrs.valid SLU_Z (Witness.gstrsOk SLU_Z) = true ∧ zgstrsCheck (Witness.gstrsOk SLU_Z) = 0 := by decide
+example : gstrs.valid false SLU_Z (Witness.gstrsOk SLU_Z) = true ∧ zgstrsCheck (Witness.gstrsOk SLU_Z) = 0 := by decide
 
-theorem zgstrs_conj_accepted : gstrs.docInfo SLU_Z (Witness.gstrsConj SLU_Z) = -1 ∧ zgstrsCheck (Witness.gstrsConj SLU_Z) = 0 := by decide
+theorem zgstrs_conj_accepted : gstrs.docInfo false SLU_Z (Witness.gstrsConj SLU_Z) = -1 ∧ zgstrsCheck (Witness.gstrsConj SLU_Z) = 0 := by decide
 
 /-! ### ?gsrfs — deviation: an illegal `equed` (argument 7) is never reported -/
 
@@ -426,62 +431,62 @@ theorem zgsequ_accepts_valid (a : GsequArgs) (h : gsequ.valid SLU_Z a = true) : 
   rw [zgsequ_first_offender]; exact firstOffender_of_allValid _ h
 example : gsequ.valid SLU_Z (Witness.gsequOk SLU_Z) = true ∧ zgsequCheck (Witness.gsequOk SLU_Z) = 0 := by decide
 
-/-! ### sp_?trsv — deviations (all four precisions): the documented trans = 'C' / 'c' is rejected with −2;
-    the documented types of L and U are never tested -/
+/-! ### sp_?trsv — deviations: c/z reject the documented trans = 'C' / 'c' with −2 (s/d accept it since /repo
+    2acf694); the documented types of L and U are never tested (all four precisions) -/
 
-theorem sp_dtrsv_code_table (a : TrsvArgs) : sp_dtrsvCheck a = firstOffender (Coded.trsv a) := by
-  simp only [sp_dtrsvCheck, sp_dtrsvChain, Coded.trsv, trsv.violates_1, trsv.violates_3, trsv.shape_4, trsv.shape_5]
+theorem sp_dtrsv_code_table (a : TrsvArgs) : sp_dtrsvCheck a = firstOffender (Coded.trsv true a) := by
+  simp only [sp_dtrsvCheck, sp_dtrsvChain, Coded.trsv, trsv.violates_1, trsv.violates_3, trsv.shape_4, trsv.shape_5, Bool.true_and]
   table_norm; enum_unfold; chain_steps
-theorem sp_dtrsv_first_offender_partial (a : TrsvArgs) (hx : Coded.trsvExcl SLU_D a) : sp_dtrsvCheck a = trsv.docInfo SLU_D a := by
-  rw [sp_dtrsv_code_table, Coded.trsv_eq_doc SLU_D a hx]
-example : Coded.trsvExcl SLU_D (Witness.trsvBadDiag SLU_D) ∧ sp_dtrsvCheck (Witness.trsvBadDiag SLU_D) = -3 := by decide
-theorem sp_dtrsv_C_rejected : trsv.valid SLU_D (Witness.trsvC SLU_D) = true ∧ sp_dtrsvCheck (Witness.trsvC SLU_D) = -2 := by decide
+theorem sp_dtrsv_first_offender_partial (a : TrsvArgs) (hx : Coded.trsvExcl true SLU_D a) : sp_dtrsvCheck a = trsv.docInfo SLU_D a := by
+  rw [sp_dtrsv_code_table, Coded.trsv_eq_doc true SLU_D a hx]
+example : Coded.trsvExcl true SLU_D (Witness.trsvBadDiag SLU_D) ∧ sp_dtrsvCheck (Witness.trsvBadDiag SLU_D) = -3 := by decide
 theorem sp_dtrsv_types_unchecked : trsv.docInfo SLU_D (Witness.trsvBadLtype SLU_D) = -4 ∧ sp_dtrsvCheck (Witness.trsvBadLtype SLU_D) = 0 := by decide
-theorem sp_dtrsv_accepts_valid_partial (a : TrsvArgs) (hC : isLetter a.trans 67 = false) (h : trsv.valid SLU_D a = true) :
-    sp_dtrsvCheck a = 0 := by
-  rw [sp_dtrsv_first_offender_partial a (Coded.trsv_valid_excl SLU_D a hC h)]
-  exact firstOffender_of_allValid _ h
-example : trsv.valid SLU_D (Witness.trsvOk SLU_D) = true ∧ sp_dtrsvCheck (Witness.trsvOk SLU_D) = 0 := by decide
 
-theorem sp_strsv_code_table (a : TrsvArgs) : sp_strsvCheck a = firstOffender (Coded.trsv a) := by
-  simp only [sp_strsvCheck, sp_strsvChain, Coded.trsv, trsv.violates_1, trsv.violates_3, trsv.shape_4, trsv.shape_5]
+theorem sp_dtrsv_accepts_valid (a : TrsvArgs) (h : trsv.valid SLU_D a = true) : sp_dtrsvCheck a = 0 := by
+  rw [sp_dtrsv_first_offender_partial a (Coded.trsv_valid_excl true SLU_D a (fun hc => by cases hc) h)]
+  exact firstOffender_of_allValid _ h
+example : trsv.valid SLU_D (Witness.trsvC SLU_D) = true ∧ sp_dtrsvCheck (Witness.trsvC SLU_D) = 0 := by decide
+
+theorem sp_strsv_code_table (a : TrsvArgs) : sp_strsvCheck a = firstOffender (Coded.trsv true a) := by
+  simp only [sp_strsvCheck, sp_strsvChain, Coded.trsv, trsv.violates_1, trsv.violates_3, trsv.shape_4, trsv.shape_5, Bool.true_and]
   table_norm; enum_unfold; chain_steps
-theorem sp_strsv_first_offender_partial (a : TrsvArgs) (hx : Coded.trsvExcl SLU_S a) : sp_strsvCheck a = trsv.docInfo SLU_S a := by
-  rw [sp_strsv_code_table, Coded.trsv_eq_doc SLU_S a hx]
-example : Coded.trsvExcl SLU_S (Witness.trsvBadDiag SLU_S) ∧ sp_strsvCheck (Witness.trsvBadDiag SLU_S) = -3 := by decide
-theorem sp_strsv_C_rejected : trsv.valid SLU_S (Witness.trsvC SLU_S) = true ∧ sp_strsvCheck (Witness.trsvC SLU_S) = -2 := by decide
+theorem sp_strsv_first_offender_partial (a : TrsvArgs) (hx : Coded.trsvExcl true SLU_S a) : sp_strsvCheck a = trsv.docInfo SLU_S a := by
+  rw [sp_strsv_code_table, Coded.trsv_eq_doc true SLU_S a hx]
+example : Coded.trsvExcl true SLU_S (Witness.trsvBadDiag SLU_S) ∧ sp_strsvCheck (Witness.trsvBadDiag SLU_S) = -3 := by decide
 theorem sp_strsv_types_unchecked : trsv.docInfo SLU_S (Witness.trsvBadLtype SLU_S) = -4 ∧ sp_strsvCheck (Witness.trsvBadLtype SLU_S) = 0 := by decide
-theorem sp_strsv_accepts_valid_partial (a : TrsvArgs) (hC : isLetter a.trans 67 = false) (h : trsv.valid SLU_S a = true) :
-    sp_strsvCheck a = 0 := by
-  rw [sp_strsv_first_offender_partial a (Coded.trsv_valid_excl SLU_S a hC h)]
-  exact firstOffender_of_allValid _ h
-example : trsv.valid SLU_S (Witness.trsvOk SLU_S) = true ∧ sp_strsvCheck (Witness.trsvOk SLU_S) = 0 := by decide
 
-theorem sp_ctrsv_code_table (a : TrsvArgs) : sp_ctrsvCheck a = firstOffender (Coded.trsv a) := by
-  simp only [sp_ctrsvCheck, sp_ctrsvChain, Coded.trsv, trsv.violates_1, trsv.violates_3, trsv.shape_4, trsv.shape_5]
+theorem sp_strsv_accepts_valid (a : TrsvArgs) (h : trsv.valid SLU_S a = true) : sp_strsvCheck a = 0 := by
+  rw [sp_strsv_first_offender_partial a (Coded.trsv_valid_excl true SLU_S a (fun hc => by cases hc) h)]
+  exact firstOffender_of_allValid _ h
+example : trsv.valid SLU_S (Witness.trsvC SLU_S) = true ∧ sp_strsvCheck (Witness.trsvC SLU_S) = 0 := by decide
+
+theorem sp_ctrsv_code_table (a : TrsvArgs) : sp_ctrsvCheck a = firstOffender (Coded.trsv false a) := by
+  simp only [sp_ctrsvCheck, sp_ctrsvChain, Coded.trsv, trsv.violates_1, trsv.violates_3, trsv.shape_4, trsv.shape_5, Bool.false_and]
   table_norm; enum_unfold; chain_steps
-theorem sp_ctrsv_first_offender_partial (a : TrsvArgs) (hx : Coded.trsvExcl SLU_C a) : sp_ctrsvCheck a = trsv.docInfo SLU_C a := by
-  rw [sp_ctrsv_code_table, Coded.trsv_eq_doc SLU_C a hx]
-example : Coded.trsvExcl SLU_C (Witness.trsvBadDiag SLU_C) ∧ sp_ctrsvCheck (Witness.trsvBadDiag SLU_C) = -3 := by decide
-theorem sp_ctrsv_C_rejected : trsv.valid SLU_C (Witness.trsvC SLU_C) = true ∧ sp_ctrsvCheck (Witness.trsvC SLU_C) = -2 := by decide
+theorem sp_ctrsv_first_offender_partial (a : TrsvArgs) (hx : Coded.trsvExcl false SLU_C a) : sp_ctrsvCheck a = trsv.docInfo SLU_C a := by
+  rw [sp_ctrsv_code_table, Coded.trsv_eq_doc false SLU_C a hx]
+example : Coded.trsvExcl false SLU_C (Witness.trsvBadDiag SLU_C) ∧ sp_ctrsvCheck (Witness.trsvBadDiag SLU_C) = -3 := by decide
 theorem sp_ctrsv_types_unchecked : trsv.docInfo SLU_C (Witness.trsvBadLtype SLU_C) = -4 ∧ sp_ctrsvCheck (Witness.trsvBadLtype SLU_C) = 0 := by decide
+
+theorem sp_ctrsv_C_rejected : trsv.valid SLU_C (Witness.trsvC SLU_C) = true ∧ sp_ctrsvCheck (Witness.trsvC SLU_C) = -2 := by decide
 theorem sp_ctrsv_accepts_valid_partial (a : TrsvArgs) (hC : isLetter a.trans 67 = false) (h : trsv.valid SLU_C a = true) :
     sp_ctrsvCheck a = 0 := by
-  rw [sp_ctrsv_first_offender_partial a (Coded.trsv_valid_excl SLU_C a hC h)]
+  rw [sp_ctrsv_first_offender_partial a (Coded.trsv_valid_excl false SLU_C a (fun _ => hC) h)]
   exact firstOffender_of_allValid _ h
 example : trsv.valid SLU_C (Witness.trsvOk SLU_C) = true ∧ sp_ctrsvCheck (Witness.trsvOk SLU_C) = 0 := by decide
 
-theorem sp_ztrsv_code_table (a : TrsvArgs) : sp_ztrsvCheck a = firstOffender (Coded.trsv a) := by
-  simp only [sp_ztrsvCheck, sp_ztrsvChain, Coded.trsv, trsv.violates_1, trsv.violates_3, trsv.shape_4, trsv.shape_5]
+theorem sp_ztrsv_code_table (a : TrsvArgs) : sp_ztrsvCheck a = firstOffender (Coded.trsv false a) := by
+  simp only [sp_ztrsvCheck, sp_ztrsvChain, Coded.trsv, trsv.violates_1, trsv.violates_3, trsv.shape_4, trsv.shape_5, Bool.false_and]
   table_norm; enum_unfold; chain_steps
-theorem sp_ztrsv_first_offender_partial (a : TrsvArgs) (hx : Coded.trsvExcl SLU_Z a) : sp_ztrsvCheck a = trsv.docInfo SLU_Z a := by
-  rw [sp_ztrsv_code_table, Coded.trsv_eq_doc SLU_Z a hx]
-example : Coded.trsvExcl SLU_Z (Witness.trsvBadDiag SLU_Z) ∧ sp_ztrsvCheck (Witness.trsvBadDiag SLU_Z) = -3 := by decide
-theorem sp_ztrsv_C_rejected : trsv.valid SLU_Z (Witness.trsvC SLU_Z) = true ∧ sp_ztrsvCheck (Witness.trsvC SLU_Z) = -2 := by decide
+theorem sp_ztrsv_first_offender_partial (a : TrsvArgs) (hx : Coded.trsvExcl false SLU_Z a) : sp_ztrsvCheck a = trsv.docInfo SLU_Z a := by
+  rw [sp_ztrsv_code_table, Coded.trsv_eq_doc false SLU_Z a hx]
+example : Coded.trsvExcl false SLU_Z (Witness.trsvBadDiag SLU_Z) ∧ sp_ztrsvCheck (Witness.trsvBadDiag SLU_Z) = -3 := by decide
 theorem sp_ztrsv_types_unchecked : trsv.docInfo SLU_Z (Witness.trsvBadLtype SLU_Z) = -4 ∧ sp_ztrsvCheck (Witness.trsvBadLtype SLU_Z) = 0 := by decide
+
+theorem sp_ztrsv_C_rejected : trsv.valid SLU_Z (Witness.trsvC SLU_Z) = true ∧ sp_ztrsvCheck (Witness.trsvC SLU_Z) = -2 := by decide
 theorem sp_ztrsv_accepts_valid_partial (a : TrsvArgs) (hC : isLetter a.trans 67 = false) (h : trsv.valid SLU_Z a = true) :
     sp_ztrsvCheck a = 0 := by
-  rw [sp_ztrsv_first_offender_partial a (Coded.trsv_valid_excl SLU_Z a hC h)]
+  rw [sp_ztrsv_first_offender_partial a (Coded.trsv_valid_excl false SLU_Z a (fun _ => hC) h)]
   exact firstOffender_of_allValid _ h
 example : trsv.valid SLU_Z (Witness.trsvOk SLU_Z) = true ∧ sp_ztrsvCheck (Witness.trsvOk SLU_Z) = 0 := by decide
 
